@@ -3,7 +3,7 @@ from __future__ import annotations
 
 from ..csr_machine import AccDecl, CsrMachine, compare_csr, leftover_accfg, normalise_reference, normalise_subject, style_of
 from ..gen import accel_cfg as A
-from ..interp import Core
+from ..interp import Core, StepLimit
 from .accfg_common import (
     ASSUMPTIONS,
     STUB,
@@ -148,6 +148,21 @@ def execute(case):
         except Violation as v:
             out.update(status="violation", oracle=v.oracle, message=v.message, env_index=i)
             return out
+        except StepLimit:
+            # liveness: an await must return once its device is idle - judged after a retry with all faults off
+            calm = dict(env, latency=0, clobber=False)
+            ms2 = CsrMachine(S, calm, [decl], label="sub")
+            ms2.step_limit = max(50_000, 20 * mr.steps)
+            try:
+                ms2.run_single("f", G.env_args(calm), Core(0))
+            except StepLimit:
+                out.update(status="violation", oracle="progress", message=f"the lowered program does not finish within {ms2.step_limit} steps with all faults off (the reference needs {mr.steps}): an await never returns", env_index=i)
+                return out
+            except Violation as v:
+                out.update(status="violation", oracle=v.oracle, message=v.message, env_index=i)
+                return out
+            out["probes"]["step-limit-under-faults-only"] = out["probes"].get("step-limit-under-faults-only", 0) + 1
+            continue
         d = compare_csr(normalise_reference(mr.hist, decls), normalise_subject(ms.hist, decls), decls)
         if d:
             out.update(status="violation", oracle="csr-history", message=d, env_index=i)
